@@ -1348,6 +1348,85 @@ pub fn round_c07_race(seed: u64) -> Value {
     })
 }
 
+/// C05 under concurrency: the newest frames of a topic are appended and removed (explicitly, and by head:N
+/// eviction) while other threads look up the head. A base frame of the topic is never removed, so the head is
+/// never "nothing", and whatever is returned has exactly that topic and context.
+pub fn round_c05_race(seed: u64) -> Value {
+    let mut rng = Rng::new(seed);
+    let (store, dir) = new_store("e2c05");
+    let mut out: Vec<Value> = vec![];
+    let ctx = store.append(Frame::builder("xs.context", ZERO_CONTEXT).build()).unwrap().id;
+    let topics = ["t", "t.x", "ta"];
+    for t in topics {
+        store.append(Frame::builder(t, ctx).meta(json!({"base": t})).build()).unwrap();
+    }
+    let stop = Arc::new(AtomicBool::new(false));
+    let lookups = Arc::new(AtomicU64::new(0));
+    let bad: Arc<Mutex<Vec<Value>>> = Arc::new(Mutex::new(vec![]));
+    let mut hs = vec![];
+    for _ in 0..2 + rng.below(3) {
+        let store = store.clone();
+        let stop = stop.clone();
+        let lookups = lookups.clone();
+        let bad = bad.clone();
+        hs.push(std::thread::spawn(move || {
+            while !stop.load(Ordering::SeqCst) {
+                for t in topics {
+                    lookups.fetch_add(1, Ordering::Relaxed);
+                    match store.head(t, ctx) {
+                        None => {
+                            let mut b = bad.lock().unwrap();
+                            if b.len() < 3 {
+                                b.push(json!({"props": ["C05"], "signature": "race/head-is-nothing-although-an-older-frame-of-the-topic-exists", "detail": {"topic": t}}));
+                            }
+                        }
+                        Some(f) if f.topic != t || f.context_id != ctx => {
+                            let mut b = bad.lock().unwrap();
+                            if b.len() < 3 {
+                                b.push(json!({"props": ["C05"], "signature": "race/head-returned-frame-of-other-topic-or-context", "detail": {"asked": t, "got_topic": f.topic}}));
+                            }
+                        }
+                        Some(_) => {}
+                    }
+                }
+            }
+        }));
+    }
+    let rounds = 150 + rng.below(150);
+    let mut removed = 0u64;
+    for i in 0..rounds {
+        let t = topics[i % 3];
+        if i % 4 == 3 {
+            // eviction by the collector instead of an explicit remove
+            let _ = store.append(Frame::builder(t, ctx).ttl(TTL::Head(2)).meta(json!({"i": i})).build());
+        } else if let Ok(f) = store.append(Frame::builder(t, ctx).meta(json!({"i": i})).build()) {
+            if store.remove(&f.id).is_ok() {
+                removed += 1;
+            }
+        }
+    }
+    stop.store(true, Ordering::SeqCst);
+    for h in hs {
+        let _ = h.join();
+    }
+    out.extend(bad.lock().unwrap().iter().cloned());
+    let n_lookups = lookups.load(Ordering::SeqCst);
+    drop(store);
+    crate::session::rm_dir(&dir);
+    json!({
+        "mode": "c05race",
+        "seed": seed,
+        "config": {"rounds": rounds},
+        "frames": rounds as u64,
+        "race.head_lookups_during_removals": n_lookups,
+        "race.removals": removed,
+        "class": "c05race",
+        "violations": out,
+        "inconclusive": null,
+        "nontrivial": n_lookups > 0 && removed > 0,
+    })
+}
+
 pub fn worker_main(mode: &str, seed: u64, first: u64, count: u64) -> ! {
     let rt = tokio::runtime::Builder::new_multi_thread().worker_threads(4).enable_all().build().unwrap();
     let hooks = install_hooks();
@@ -1367,6 +1446,7 @@ pub fn worker_main(mode: &str, seed: u64, first: u64, count: u64) -> ! {
             "c03" => round_c03(&rt, &hooks, s),
             "c11slow" => round_c11_slow(&rt, &hooks, s),
             "c07race" => round_c07_race(s),
+            "c05race" => round_c05_race(s),
             _ => round_c11(&rt, &hooks, s),
         }));
         let mut v = match r {
@@ -1389,6 +1469,7 @@ pub fn round_main(mode: &str, round_seed: u64) -> ! {
         "c03" => round_c03(&rt, &hooks, round_seed),
         "c11slow" => round_c11_slow(&rt, &hooks, round_seed),
         "c07race" => round_c07_race(round_seed),
+        "c05race" => round_c05_race(round_seed),
         _ => round_c11(&rt, &hooks, round_seed),
     };
     println!("{}", v);
